@@ -1795,18 +1795,29 @@ def _inline(te: "TermEval", func: FuncInfo, depth: int, stack: tuple, stop) -> S
 
     for e in base.effects:
         sink: list = []
-        pc_x, ctx_x = expand_pc(e.pc, e.ctx)
-        pc_x = pc_x + after_calls(e.pc, e.ctx)
+        pc_exp, ctx_x = expand_pc(e.pc, e.ctx)
+        pc_x = pc_exp + after_calls(e.pc, e.ctx)
+
+        def placed(sk, e=e, pc_x=pc_exp, ctx_x=ctx_x):
+            # the callee's effects happen under the call site's conditions / loops *as rewritten here* (helper
+            # predicates in the caller's conditions looked through)
+            res = []
+            for ce in sk:
+                if ce.pc[:len(e.pc)] == e.pc and ce.ctx[:len(e.ctx)] == e.ctx and (pc_x != e.pc or ctx_x != e.ctx):
+                    ce = Effect(ce.kind, ce.base, ce.key, ce.value, pc_x + ce.pc[len(e.pc):],
+                                ctx_x + ce.ctx[len(e.ctx):], ce.node, ce.func, ce.aug)
+                res.append(ce)
+            return res
         if e.kind == "raise":
             val = expand(e.value, e.pc, e.ctx, sink)
-            out.effects.extend(sink)
+            out.effects.extend(placed(sink))
             out.effects.append(Effect("raise", None, None, val, pc_x, ctx_x, e.node, e.func))
             continue
         n_raises = len(out.raises)
         b = expand(e.base, e.pc, e.ctx, sink) if isinstance(e.base, tuple) else e.base
         k = expand(e.key, e.pc, e.ctx, sink) if e.kind == "store_sub" else e.key
         v = expand(e.value, e.pc, e.ctx, sink) if isinstance(e.value, tuple) else e.value
-        out.effects.extend(sink)
+        out.effects.extend(placed(sink))
         if e.kind == "call" and e.value[0] == "call":
             tg_ = base.calls.get(e.value) or out.calls.get(e.value)
             if tg_ and len(tg_) == 1 and e.value in out.precise and tg_[0].is_generator():
